@@ -1,1 +1,2 @@
 import QsGen.Position
+import QsGen.Kernels
